@@ -340,6 +340,8 @@ def validation_jobs(tier, seed):
     jobs = [mc_job('mc_protect', 'protect', maxanns=12, maxres=2, prelude=11, MaxData=10, MaxSets=2, MaxKeys=4),
             gen_job('protect_p11', 'protect', 11, depth=2, style=style, validation=True, **big),
             gen_job('protect_p6', 'protect', 6, depth=1, style=(style + 1) % 5, validation=True, **big),
+            # two resources with different text, annotations at the same offsets
+            gen_job('protect_p16', 'protect', 16, depth=2, style=(style + 3) % 5, validation=True, **big),
             gen_job('protect_all_p2', 'all', 2, depth=2 if quick else 3, style=style, validation=True, **big),
             gen_job('protect_sim', 'all', 1, simulate=20 if quick else 200, simdepth=7, size='m', style=(style + 2) % 5, validation=True, **big)]
     return jobs
@@ -406,7 +408,20 @@ def plan_for(prop, tier, seed, replay_file=None):
         rt = [RT('reindex', 'memory')]
         re_ = [gen_job('reindex_p5', 'remove', 5, depth=2 if tier == 'quick' else 3, style=seed % 5, reads=['lookup'], per_state=False, roundtrips=rt, **big),
                gen_job('reindex_p10', 'remove', 10, depth=2, style=(seed + 3) % 5, reads=['lookup'], per_state=False, roundtrips=rt, MaxAnns=10, MaxRes=3, MaxData=8, MaxSets=2, MaxKeys=4)]
+        # identifiers that begin like temporary identifiers
+        re_.append(gen_job('tempish_p15', 'tempish', 15, depth=1 if tier == 'quick' else 2, style=(seed + 1) % 5, reads=['lookup'], per_state=False,
+                           MaxAnns=10, MaxRes=4, MaxData=6, MaxSets=4, MaxKeys=4))
         return dict(jobs=store_jobs(prop, tier, seed) + re_, rule=STORE_RULE, assumptions=STORE_ASSUMPTIONS)
+    if prop == 'C01':
+        # complex selectors over annotations with relative offsets (range compression of annotation selectors)
+        extra = [gen_job('complexrel_p13', 'complexrel', 13, depth=1, style=seed % 5, reads=['anntext'], per_state=False, MaxAnns=10, MaxRes=2, MaxData=4)]
+        if tier != 'quick':
+            extra.append(gen_job('complexrel_p13d2', 'complexrel', 13, depth=2, style=(seed + 1) % 5, per_state=False, sample_mod=40, MaxAnns=10, MaxRes=2, MaxData=4))
+        return dict(jobs=store_jobs(prop, tier, seed) + extra, rule=STORE_RULE, assumptions=STORE_ASSUMPTIONS)
+    if prop == 'C02':
+        # annotations that list the same data item twice
+        extra = [gen_job('remove_p14', 'remove', 14, depth=2 if tier == 'quick' else 3, style=(seed + 2) % 5, MaxAnns=10, MaxRes=2, MaxData=4)]
+        return dict(jobs=store_jobs(prop, tier, seed) + extra, rule=STORE_RULE, assumptions=STORE_ASSUMPTIONS)
     if prop in ('C01', 'C02'):
         return dict(jobs=store_jobs(prop, tier, seed), rule=STORE_RULE, assumptions=STORE_ASSUMPTIONS)
     if prop == 'C04':
